@@ -166,7 +166,8 @@ OnPresent(ev) ==
       cred == IF known THEN CredOfT(inm.jwt.id) ELSE {}
   IN
   /\ Total(ev)
-  /\ Chk("present.ok", known /\ KnownGood(inm) /\ tc /\ (kbAll \/ kbNone), ok)
+  \* (a key-binding algorithm the key cannot sign with is a legitimate reason to fail)
+  /\ Chk("present.ok", known /\ KnownGood(inm) /\ tc /\ (kbNone \/ (kbAll /\ ev.key \in DOMAIN KeyFamT /\ AlgFam(IF ev.alg = "" THEN "ES256" ELSE ev.alg) = KeyFamT[ev.key])), ok)
   /\ Chk("hist.expect", ev.hexpect # "", ev.out.st = ev.hexpect)
   /\ IF good THEN
        /\ Chk("present.exact", tc, PresentExact(inm, ev.sel, outm))
